@@ -732,6 +732,9 @@ def run_property(prop, tier, replay_file=None, only=None, jobs=None, keep=False)
         exit_code = 2
         for u, r in undecided:
             print("UNDECIDED property=%s unit=%s reason=%s" % (prop, u.name, r["reason"].split("\n")[0][:300]))
+    if only:
+        # a partial run (--only) is a development aid: it never replaces the evidence file of the registered check
+        os.environ["VX_EVIDENCE_DIR"] = os.path.join(outroot, "evidence_partial")
     write_evidence(prop, tier, seed, results, meta, vio_records, known_hits, undecided, time.time() - t0)
     if not keep and exit_code == 0:
         # keep lifted C and logs (small); drop goto binaries
@@ -834,4 +837,6 @@ COMMON_ASSUMPTIONS = [
     "A-SC: atomics are sequentially consistent indivisible steps; memory-order adequacy not verified",
     "history-induction (DESIGN 3.4): per-step / monitor obligations are machine checked, the induction over the "
     "interleaved history that turns them into an all-schedules statement is a paper argument",
+    "A-STATIC: a function-local static with a run-time initialiser is lowered to a local initialised by the current call "
+    "(first-call semantics); staleness across calls is decided only where a unit models it (C15: cached process mask)",
 ]
